@@ -652,6 +652,9 @@ PTRef FarkasInterpolator::getFlexibleInterpolant(Real strengthFactor) {
     Real lowerBound = c1;
     Real upperBound = -c2;
     Real strengthDiff = upperBound - lowerBound;
+    // If the two bounds touch, the systems contradict only through the strictness of one side, which the non-strict
+    // inequality built below would lose: the weighted sum of A itself is the interpolant then
+    if (strengthDiff.isZero()) { return itpA; }
     Real newConstant = lowerBound + (strengthDiff * strengthFactor);
     SRef itpSort = logic.getSortRef(sidesA.first);
     PTRef itp = logic.mkLeq(logic.mkConst(itpSort, newConstant), sidesA.first);
